@@ -6,8 +6,10 @@ package main
 
 import (
 	"fmt"
+	"runtime"
 	"sort"
 	"strings"
+	"sync"
 
 	"github.com/nelhage/taktician/tak"
 )
@@ -50,6 +52,111 @@ func naiveLegal(a *aboard) map[string]bool {
 		}
 	}
 	return out
+}
+
+// c03Seen: the positions of this run with the oracle's legal move set, for the concurrent family
+type c03Rec struct {
+	p    *tak.Position
+	want map[string]bool
+}
+
+var c03Seen []c03Rec
+
+// judgeListC03 applies the property's own criteria to a generated list: no move twice, every move starts and ends on the
+// board, every legal move (the rules oracle's set) present.  Returns "" or "<class> | <what>".
+func judgeListC03(p *tak.Position, all []tak.Move, want map[string]bool) string {
+	n := int8(p.Size())
+	seen := map[string]int{}
+	for _, m := range all {
+		k := moveKey(m)
+		seen[k]++
+		if seen[k] == 2 {
+			return "duplicate-move | " + encMove(m) + " listed twice"
+		}
+		ex, ey := m.X, m.Y
+		if m.IsSlide() {
+			l := int8(m.Slides.Len())
+			switch m.Type {
+			case tak.SlideLeft:
+				ex -= l
+			case tak.SlideRight:
+				ex += l
+			case tak.SlideUp:
+				ey += l
+			case tak.SlideDown:
+				ey -= l
+			}
+		}
+		if m.X < 0 || m.X >= n || m.Y < 0 || m.Y >= n || ex < 0 || ex >= n || ey < 0 || ey >= n {
+			return "off-board-move | " + encMove(m)
+		}
+	}
+	for k := range want {
+		if seen[k] == 0 {
+			return "legal-move-missing | not generated: " + k
+		}
+	}
+	return ""
+}
+
+// c03Concurrent: AllMoves is called from several goroutines at once on positions of DIFFERENT board sizes (what a server
+// analysing several games, or selfplay with mixed sizes, does); every list obtained that way is judged by the same criteria.
+func c03Concurrent(c *ctx, rounds int) {
+	if len(c03Seen) == 0 {
+		return
+	}
+	old := runtime.GOMAXPROCS(0)
+	if old < 4 {
+		runtime.GOMAXPROCS(4)
+		defer runtime.GOMAXPROCS(old)
+	}
+	const workers = 6
+	type bad struct {
+		rec  c03Rec
+		what string
+	}
+	var mu sync.Mutex
+	var bads []bad
+	var calls int64
+	var wg sync.WaitGroup
+	for w := 0; w < workers; w++ {
+		wg.Add(1)
+		go func(w int) {
+			defer wg.Done()
+			n := 0
+			for k := 0; k < rounds; k++ {
+				rec := c03Seen[(w*7919+k*31+k*k)%len(c03Seen)] // mixed sizes per worker, deterministic choice
+				var all []tak.Move
+				panicked, msg := safely(func() { all = rec.p.AllMoves(nil) })
+				what := ""
+				if panicked {
+					what = "panic | " + msg
+				} else {
+					what = judgeListC03(rec.p, all, rec.want)
+				}
+				n++
+				if what != "" {
+					mu.Lock()
+					bads = append(bads, bad{rec, what})
+					mu.Unlock()
+					break
+				}
+			}
+			mu.Lock()
+			calls += int64(n)
+			mu.Unlock()
+		}(w)
+	}
+	wg.Wait()
+	c.stat("concurrent_calls", calls)
+	for i, b := range bads {
+		if i >= 3 {
+			break
+		}
+		f := strings.SplitN(b.what, " | ", 2)
+		c.printf("ORACLE-FAIL concurrent-%s | %s ;; called while %d other goroutines call AllMoves on positions of sizes 3..8 | %s | the same list as in a sequential call: complete, duplicate-free, on the board\n",
+			f[0], enc(b.rec.p), workers-1, f[1])
+	}
 }
 
 func emitC03(c *ctx, p *tak.Position, kind string) {
@@ -111,6 +218,7 @@ func emitC03(c *ctx, p *tak.Position, kind string) {
 	}
 	// completeness against the rules oracle
 	want := naiveLegal(a)
+	c03Seen = append(c03Seen, c03Rec{p, want})
 	c.stat("moves_legal", int64(len(want)))
 	for k := range want {
 		if !generatedLegal[k] {
@@ -169,8 +277,20 @@ func runC03(c *ctx) {
 		}
 	}
 	if c.tier == "replay" {
-		if p, err := decodeEnc(readReplay(c).Input); err == nil {
+		in := readReplay(c).Input
+		conc := strings.Contains(in, " ;; ")
+		if i := strings.Index(in, " ;; "); i >= 0 {
+			in = in[:i]
+		}
+		if p, err := decodeEnc(in); err == nil {
 			emitC03(c, p, "replay")
+			if conc { // a failure of the concurrent family: the position again, next to boards of the other sizes
+				for s := 3; s <= 8; s++ {
+					q, _, _ := constructedBoard(c.r, s, 8, 0.5)
+					c03Seen = append(c03Seen, c03Rec{q, naiveLegal(absOf(q))})
+				}
+				c03Concurrent(c, 4000)
+			}
 		}
 		return
 	}
@@ -195,4 +315,5 @@ func runC03(c *ctx) {
 		p, _, _ := constructedBoard(r, size, maxH, 0.2+0.6*r.Float64())
 		emitC03(c, p, "constructed")
 	}
+	c03Concurrent(c, 1500*c.scale)
 }
